@@ -82,6 +82,11 @@ impl Ctx {
     }
   }
 
+  /// true in the worker that also runs the serial (non-partitioned) sections
+  pub fn primary(&self) -> bool {
+    part().0 == 0
+  }
+
   pub fn quick(&self) -> bool {
     self.tier == Tier::Quick
   }
@@ -295,11 +300,47 @@ pub fn silence_panics() {
 /// Partition the index range [lo, hi) into chunks handed out dynamically to THREADS workers.
 /// `f(chunk_lo, chunk_hi, &mut Local)`; stops handing out chunks once the deadline passed.
 /// Returns true when every chunk was processed.
+/// (i, n): this process handles every chunk whose running number is congruent i modulo n (env VERIF_PART="i/n").
+/// Process-level partitioning scales far better than threads here because every lunar query takes the
+/// library's process-wide memo lock and clones its leap-year table.
+pub fn part() -> (usize, usize) {
+  match std::env::var("VERIF_PART") {
+    Ok(v) => {
+      let mut it = v.split('/');
+      let i: usize = it.next().and_then(|x| x.parse().ok()).unwrap_or(0);
+      let n: usize = it.next().and_then(|x| x.parse().ok()).unwrap_or(1);
+      (i, n.max(1))
+    }
+    Err(_) => (0, 1),
+  }
+}
+
+fn default_threads() -> usize {
+  let d = if part().1 > 1 { 1 } else { THREADS };
+  env_u64("VERIF_THREADS", d as u64) as usize
+}
+
+/// partitioned over the worker processes: each chunk is explored by exactly one process
 pub fn par_chunks<F>(ctx: &Ctx, lo: usize, hi: usize, chunk: usize, f: F) -> bool
 where
   F: Fn(usize, usize, &mut Local) + Sync,
 {
-  par_chunks_n(ctx, THREADS, lo, hi, chunk, f)
+  let (pi, pn) = part();
+  par_chunks_n(ctx, default_threads(), lo, hi, chunk, |a, b, l| {
+    let k = (a - lo) / chunk;
+    if k % pn == pi {
+      f(a, b, l)
+    }
+  })
+}
+
+/// not partitioned: every worker process computes all chunks (used to build the shared tables)
+pub fn par_chunks_all<F>(ctx: &Ctx, lo: usize, hi: usize, chunk: usize, f: F) -> bool
+where
+  F: Fn(usize, usize, &mut Local) + Sync,
+{
+  let t = if part().1 > 1 { 2 } else { THREADS };
+  par_chunks_n(ctx, t, lo, hi, chunk, f)
 }
 
 pub fn par_chunks_n<F>(ctx: &Ctx, threads: usize, lo: usize, hi: usize, chunk: usize, f: F) -> bool
